@@ -150,11 +150,18 @@ class Receiver(RuleAnalysis):
         return [fact], [fact]
 
 
-def _errno_of(raise_node, fn=None) -> str:
-    """the errno constant of `raise error_from_errno(E...)`; `raise _helper()` is read through a private helper whose body is one return"""
+def _errno_of(raise_node, fn=None, truth=None) -> str:
+    """the errno constant of `raise error_from_errno(E...)`; `raise _helper(...)` is read through a private helper that returns the error
+    (its tests on an argument whose truth is known - the end-of-stream latch - are decided)"""
     direct = next((x.attr for x in ast.walk(raise_node) if isinstance(x, ast.Attribute) and x.attr.startswith("E") and x.attr.isupper()), "")
     if direct or fn is None:
         return direct
+    from sa.norm import raised_errnos
+    es = raised_errnos(fn, raise_node, truth)
+    if len(es) == 1:
+        return next(iter(es))
+    if len(es) > 1:
+        return "|".join(sorted(es))
     from sa.norm import helper_return_expr
     exc = getattr(raise_node, "exc", None)
     if isinstance(exc, ast.Call):
@@ -276,12 +283,12 @@ def check_receivers(eng, run):
                 run.finding("C03.eof", fn, r, "receive() returns something that is not a packet produced by consumer.next() (a trailing partial frame / raw data would be delivered)")
         errnos = []
         for node, eof in an.eof_raises:
-            e = _errno_of(node, fn)
+            e = _errno_of(node, fn, {f"{fn.self_name}.{latch}": True} if eof == "T" else ({f"{fn.self_name}.{latch}": False} if eof == "F" else None))
             errnos.append((eof, e))
             if eof == "T" and e != "ECONNABORTED":
                 eof_bad.append((node, ""))
                 run.finding("C03.eof", fn, node, f"after end-of-stream was latched the call fails with {e or 'another error'} instead of ECONNABORTED")
-        has_abort = any(e == "ECONNABORTED" for _, e in errnos)
+        has_abort = any("ECONNABORTED" in e.split("|") for _, e in errnos)
         if not has_abort:
             run.finding("C03.eof", fn, fn.node, "no ECONNABORTED exit for end-of-stream")
         # the loop cannot be left with the latch set by a normal return (fall-through)
@@ -357,12 +364,16 @@ def check_clients(eng, run):
 class FlowCtl(RuleAnalysis):
     """fact: frozenset of {'shrunk','grown'}: the buffered-bytes level changed and the matching flow-control hook has not run yet."""
     tokens = ("Exception", CANCELLED)
+    inline_helpers = True  # a copy-out block extracted into a private helper is read in place: the caller re-evaluates the flow control
 
     def __init__(self, engine, level, transport_attr, pauser, resumer):
         super().__init__(engine)
         self.level, self.tattr, self.pauser, self.resumer = level, transport_attr, pauser, resumer
         self.viol = []
         self.changes = 0
+
+    def keeps_opaque(self, g, node):
+        return g.name in (self.pauser, self.resumer)  # the flow-control hooks are the events of this analysis, not code to read through
 
     def initial(self, fn):
         return [frozenset()]
@@ -387,7 +398,8 @@ class FlowCtl(RuleAnalysis):
                 return [fact - {"shrunk"}]
             if c.func.attr == self.pauser:
                 return [fact - {"grown"}]
-        if isinstance(node, (ast.Return, FnExit)) and fact:
+        in_helper = bool(getattr(getattr(self, "interp", None), "_inline_stack", None))
+        if isinstance(node, (ast.Return, FnExit)) and fact and not in_helper:  # a helper's own return is not yet the exit of the method
             self.viol.append((node, fact))
         return [fact]
 
@@ -428,10 +440,25 @@ def check_flow(eng, run):
             raise AnalysisError(f"anchor vanished: buffered level / transport attribute of {ci.name} flow control")
         level = next(iter(level))
         tattr = sorted(walrus)[0]
-        for fn in ci.methods.values():
-            if fn in (pauser, resumer) or isinstance(fn.node, ast.Lambda) or fn.name == "__init__":
+        from sa.norm import nodes_inl, private_helper
+
+        def changes_level(f):
+            return any(isinstance(x, (ast.Assign, ast.AugAssign, ast.AnnAssign)) and any(dotted(t) == level for t in (x.targets if isinstance(x, ast.Assign) else [x.target])) for x, _o in nodes_inl(f))
+
+        # private helpers that change the level on behalf of another method of the class are judged in that method (inlined)
+        delegated = set()
+        for f in ci.methods.values():
+            if isinstance(f.node, ast.Lambda):
                 continue
-            if not any(isinstance(x, (ast.Assign, ast.AugAssign, ast.AnnAssign)) and any(dotted(t) == level for t in (x.targets if isinstance(x, ast.Assign) else [x.target])) for x in own_nodes(fn.node)):
+            for c in own_nodes(f.node):
+                if isinstance(c, ast.Call):
+                    g = private_helper(f, c)
+                    if g is not None and g is not f and g.cls is ci and g not in (pauser, resumer):
+                        delegated.add(g.qualname)
+        for fn in ci.methods.values():
+            if fn in (pauser, resumer) or isinstance(fn.node, ast.Lambda) or fn.name == "__init__" or fn.qualname in delegated:
+                continue
+            if not changes_level(fn):
                 continue
             an = FlowCtl(eng, level, tattr, pauser.name, resumer.name)
             Interp(an, fn).run()
@@ -547,20 +574,21 @@ def run(eng, run):
     from sa.anchors import verify as _verify_anchor_names
     _verify_anchor_names(eng, run)
     run.not_decided += NOT_DECIDED
-    check_half_close(eng, run)
+    run.attempt(check_half_close, eng, run)
     from rules import c12
     from sa.report import RuleAlias
-    c12.check_lock_with_timeout(eng, RuleAlias(run, "C03.cli"))  # a receive lock that is never released: every later recv_packet() times out
-    check_receivers(eng, run)
-    check_clients(eng, run)
-    check_flow(eng, run)
-    check_water_marks(eng, run)
-    check_buf(eng, run)
-    check_iterators(eng, run)
+    run.attempt(c12.check_lock_with_timeout, eng, RuleAlias(run, "C03.cli"))  # a receive lock that is never released: every later recv_packet() times out
+    run.attempt(check_receivers, eng, run)
+    run.attempt(check_clients, eng, run)
+    run.attempt(check_flow, eng, run)
+    run.attempt(check_water_marks, eng, run)
+    run.attempt(check_buf, eng, run)
+    run.attempt(check_iterators, eng, run)
     from rules import c08
-    c08.check_zero_read(eng, run, rule="C03.eof")
+    run.attempt(c08.check_zero_read, eng, run, rule="C03.eof")
     from sa.analyses.arms import check_dead_arms
-    check_dead_arms(eng, run, "C03.arms", ("clients.tcp", "clients.async_tcp", "lowlevel._stream", "lowlevel.api_async.transports.tls", "lowlevel.api_sync.transports"), 8)
+    run.attempt(check_dead_arms, eng, run, "C03.arms", ("clients.tcp", "clients.async_tcp", "lowlevel._stream", "lowlevel.api_async.transports.tls", "lowlevel.api_sync.transports"), 8)
+    run.end_of_rules()
 
 
 # ---------------------------------------------------------------------------------------------- self-test corpus
